@@ -21,6 +21,7 @@ import (
 	"bytes"
 	"context"
 	"crypto"
+	"crypto/sha256"
 	"crypto/x509"
 	"database/sql"
 	"encoding/json"
@@ -218,7 +219,14 @@ func (w *Witness) Update(ctx context.Context, logID string, nextRaw []byte, pf [
 		return prevRaw, nil
 	}
 	// The only remaining option is next.Size > prev.Size. This might be
-	// valid so we verify the consistency proof.
+	// valid so we verify the consistency proof.  The verifier hashes proof
+	// nodes as opaque byte strings, so nodes that are not hash-sized would
+	// make the left/right pairing ambiguous: refuse them.
+	for _, h := range pf {
+		if len(h) != sha256.Size {
+			return prevRaw, status.Errorf(codes.FailedPrecondition, "consistency proof node of %d bytes, want %d", len(h), sha256.Size)
+		}
+	}
 	if err := proof.VerifyConsistency(rfc6962.DefaultHasher, prev.TreeSize, next.TreeSize, pf, prev.SHA256RootHash[:], next.SHA256RootHash[:]); err != nil {
 		// Complain if the STHs aren't consistent.
 		return prevRaw, status.Errorf(codes.FailedPrecondition, "failed to verify consistency proof: %v", err)
